@@ -8,8 +8,10 @@ import typing as t
 
 
 def sid_to_bytes(sid: str) -> bytes:
-    sid_pattern = re.compile(r"^S-(\d)-(\d+)(?:-\d+){1,15}$")
-    sid_match = sid_pattern.match(sid)
+    # [0-9] and fullmatch are used as \d also matches non-ASCII decimal digits
+    # and $ also matches before a trailing newline.
+    sid_pattern = re.compile(r"S-([0-9])-([0-9]+)(?:-[0-9]+){1,15}")
+    sid_match = sid_pattern.fullmatch(sid)
     if not sid_match:
         raise ValueError(f"Input string '{sid}' is not a valid SID string")
 
